@@ -6,7 +6,7 @@ import json
 from typing import Union
 
 from twosigma.memento.metadata import InvocationMetadata, Memento, ResultType
-from twosigma.memento.reference import FunctionReferenceWithArguments
+from twosigma.memento.reference import FunctionReference, FunctionReferenceWithArguments
 from twosigma.memento.resource import ResourceHandle
 from twosigma.memento.serialization import MementoCodec
 from twosigma.memento.types import VersionedDataSourceKey
@@ -402,7 +402,7 @@ def _memento(a, url, rver, cid, ck, ninv, nres, rt, ty, has_key, real_json=False
 # decoding is a function of the document and of the CURRENT program - not of what was decoded earlier in the process
 # ------------------------------------------------------------------------------------------------
 
-REDECODE_CHANGES = ["edited", "re-versioned", "removed", "appears-later"]
+REDECODE_CHANGES = ["edited", "re-versioned", "removed", "appears-later", "reference-names-another-cluster"]
 
 
 @obligation(
@@ -437,6 +437,20 @@ def redecode(change: int, partial: bool, explicit: bool):
             ref0 = (f0.partial(5) if pt else f0).fn_reference()
             doc = MementoCodec.encode_fn_reference(ref0)
             text = json.dumps(doc)
+            if name == "reference-names-another-cluster":
+                # a stored reference to this function under ANOTHER cluster name (e.g. the function moved between clusters):
+                # whatever it resolves to, its cluster is not silently replaced by the live function's
+                other = dict(doc)
+                parts = FunctionReference.parse_qualified_name(doc["qualifiedName"])
+                other["qualifiedName"] = "elsewhere::" + doc["qualifiedName"].split("::")[-1]
+                d1 = MementoCodec.decode_fn_reference(json.loads(json.dumps(other)))
+                d2 = MementoCodec.decode_fn_reference(json.loads(json.dumps(other)))
+                for d in (d1, d2):
+                    check("cluster-of-the-stored-reference-is-kept", d.qualified_name == other["qualifiedName"] and d.cluster_name == "elsewhere",
+                          (d.qualified_name, d.cluster_name))
+                    check("re-encoding-gives-the-original-document", json.dumps(MementoCodec.encode_fn_reference(d), sort_keys=True)
+                          == json.dumps(other, sort_keys=True), (MementoCodec.encode_fn_reference(d), other))
+                return
             if name == "appears-later":
                 # first decode while the function does not exist, second after it has been defined
                 del prog.mod.__dict__["f"]
